@@ -81,11 +81,21 @@ def hashable_type(t):
     return all(hashable_type(k) for k in kids)
 
 
+def pool_codecs():
+    import gtirb
+    return getattr(gtirb.AuxData.serializer, "codecs", {})
+
+
 def unknown_type(rnd, depth):
     """Type tree with one unknown codec name at the given depth, and bytes:
     reference encoding of the known prefix that is decoded before the
     unknown name is reached, followed by arbitrary bytes."""
-    unk = rnd.choice(["foo", "my_type", "Addr2", "uint128_t", "string "])
+    # names this API has no codec for, judged by its public codec table
+    # at run time (a release that adds one of them must not alarm)
+    have = set(pool_codecs())
+    unk = rnd.choice([n for n in ("foo", "my_type", "Addr2", "uint128_t",
+                                  "string ", " uint64_t", "Uuid")
+                      if n not in have] or ["no such codec"])
     q = lambda v: refcodec._u64(v)
     junk = bytes(rnd.randrange(256) for _ in range(rnd.randint(0, 12)))
     if depth == 0:
@@ -182,6 +192,23 @@ def run(ctx):
                     t, raw = noncanonical(rnd, pool)
                     kind = "noncanonical"
                     ctx.count("noncanonical_tables")
+                elif k < 0.68:
+                    # a supported type spelled with blanks after the commas
+                    # (as other producers print it): " uint64_t" is not a
+                    # name this API has a codec for, so the table is one of
+                    # unknown type whose bytes happen to be meaningful
+                    for _ in range(20):
+                        t = auxgen.gen_type(rnd, rnd.choice([1, 2, 3]))
+                        if "," in reftypes.show(t):
+                            break
+                    v = auxgen.gen_value(rnd, t, pool)
+                    raw = refcodec.encode(v, t)
+                    tn = reftypes.show(t).replace(",", rnd.choice(
+                        [", ", ",  "]))  # blanks belong to the next name
+                    if "," in tn:
+                        ctx.count("spaced_type_name_tables")
+                    tables[lvl].append(Table(key, tn, raw, "unknown"))
+                    continue
                 else:
                     t, raw = unknown_type(rnd, rnd.choice([0, 0, 1, 2, 3]))
                     kind = "unknown"
@@ -231,14 +258,13 @@ def run(ctx):
                         continue
                     if not supported:
                         d = ad.data
-                        if reaches_unknown(t.raw, tt) and not isinstance(
-                                d, gtirb.serialization.UnknownData):
-                            raise Discrepancy(
-                                "C14", "unknown-type-decoded",
-                                "table of type %s decoded to %s instead of "
-                                "an UnknownData blob" % (t.tn,
-                                                         type(d).__name__),
-                                {})
+                        if reaches_unknown(t.raw, tt):
+                            # evidence only: C14 asks for unchanged bytes,
+                            # not for a particular Python type
+                            ctx.count("unknown_reached:" + (
+                                "blob" if isinstance(
+                                    d, gtirb.serialization.UnknownData)
+                                else "decoded"))
                         expect[(lvl, t.key)] = ("unknown-read", t.tn, t.raw,
                                                 None)
                         continue
